@@ -32,7 +32,7 @@ if __name__=='__main__':
     checks=sys.argv[1].split(',')
     sids=sys.argv[2:] or sorted(os.listdir(f'{VERIF}/seeded'))
     out={}
-    with ThreadPoolExecutor(max_workers=2) as ex:
+    with ThreadPoolExecutor(max_workers=int(os.environ.get("VERIF_WORKERS", "2"))) as ex:
         for sid,res in ex.map(lambda s: one(s,checks), sids):
             out[sid]=res
             det=[c for c,r in res.items() if isinstance(r,dict) and r.get('violations')]
